@@ -134,6 +134,7 @@ func runQP(c QPCase, rec *h.Rec) error {
 	if c.Kind == "pk" {
 		key = kgen.GenPublicKeyNew(sk)
 	}
+	keyHash := hashKeysQP(sk, sk2, key)
 	enc := buildEncryptor(params, c.Route, key, other, c.Seed)
 	seeded := (c.Route == "withprng" || c.Route == "withprng-shallow") && c.Kind == "sk"
 
@@ -287,44 +288,78 @@ func runQP(c QPCase, rec *h.Rec) error {
 		return h.Failf(kbase+":repeat:noise-above-bound", "second encryption: |c0+c1*s|_inf = %s / %s, bound %s", h.InfNorm(raw2), h.InfNorm(dom2), bBig)
 	}
 
-	// wrong key
-	wrongOK := !equalInts(sInts, s2Ints)
-	if c.Kind == "pk" && zeroProbLog2(c.Spec.Xs, n) > -50 {
-		wrongOK = false
-	}
-	if wrongOK {
-		total := 0
+	// wrong key. A pk encryption whose mask u is zero has c1 = e1: left out of the pool when the declared Xs allows u = 0
+	// with probability >= 2^-50, a violation otherwise.
+	if !equalInts(sInts, s2Ints) {
+		be := bigOfFloat(c.Spec.Xe.AbsBound())
+		c1Small := func(x1 ringqp.Poly) bool {
+			if c.Kind != "pk" {
+				return false
+			}
+			t := rqp.NewPoly()
+			t.CopyLvl(lq, lp, x1)
+			if c.IsNTT {
+				rqp.INTT(t, t)
+			}
+			qs := qpModuli(params, lq, lp)
+			r, _ := centred(qpLimbs(t, lq, lp), qs)
+			rqp.IMForm(t, t)
+			d, _ := centred(qpLimbs(t, lq, lp), qs)
+			return h.InfNorm(r).Cmp(be) <= 0 || h.InfNorm(d).Cmp(be) <= 0
+		}
+		total, tries, left := 0, 0, 0
 		sum, max := new(big.Int), new(big.Int)
 		x0, x1 := c0, c1
-		for total < 256 {
-			r, _, _ := qpDecrypt(params, lq, lp, x0, x1, sk2, c.IsNTT)
-			s, m := sumAbsAndMax(r)
-			sum.Add(sum, s)
-			if m.Cmp(max) > 0 {
-				max.Set(m)
+		for {
+			tries++
+			if c1Small(x1) {
+				if zeroProbLog2(c.Spec.Xs, n) < -50 {
+					return h.Failf(kbase+":degenerate-mask", "c1 of a public-key zero-encryption is within the error bound: the mask u*pk1 is missing")
+				}
+				left++
+			} else {
+				r, _, _ := qpDecrypt(params, lq, lp, x0, x1, sk2, c.IsNTT)
+				sa, m := sumAbsAndMax(r)
+				sum.Add(sum, sa)
+				if m.Cmp(max) > 0 {
+					max.Set(m)
+				}
+				total += n
 			}
-			total += n
-			if total < 256 {
-				nx, err := encryptOnce()
-				if err == errSkip {
-					return nil
-				}
-				if err != nil {
-					return h.Failf(kbase+":error", "unexpected error: %v", err)
-				}
-				if x0, x1, err = components(nx); err != nil {
-					return err
-				}
+			if total >= 256 || tries >= 40 {
+				break
+			}
+			nx, err := encryptOnce()
+			if err == errSkip {
+				return nil
+			}
+			if err != nil {
+				return h.Failf(kbase+":error", "unexpected error: %v", err)
+			}
+			if x0, x1, err = components(nx); err != nil {
+				return err
 			}
 		}
-		q8 := new(big.Int).Rsh(QP, 3)
-		mean := new(big.Int).Div(sum, big.NewInt(int64(total)))
-		if max.Cmp(q8) < 0 || mean.Cmp(q8) < 0 {
-			return h.Failf(kbase+":wrong-key:readable", "c0+c1*s' for an independent s': max %s, mean %s over %d coefficients, QP/8 = %s", max, mean, total, q8)
+		if total >= 256 {
+			q8 := new(big.Int).Rsh(QP, 3)
+			mean := new(big.Int).Div(sum, big.NewInt(int64(total)))
+			if max.Cmp(q8) < 0 || mean.Cmp(q8) < 0 {
+				return h.Failf(kbase+":wrong-key:readable", "c0+c1*s' for an independent s': max %s, mean %s over %d coefficients, QP/8 = %s", max, mean, total, q8)
+			}
+			rec.Classf("wrongkey=checked:%s", c.Kind)
+			if left > 0 {
+				rec.Class("wrongkey:zero-mask-left-out")
+			}
+		} else {
+			rec.Class("wrongkey=skipped")
 		}
-		rec.Class("wrongkey=checked")
 	} else {
 		rec.Class("wrongkey=skipped")
+	}
+
+	// keys untouched by all the above
+	if hashKeysQP(sk, sk2, key) != keyHash {
+		return h.Failf(kbase+":input-modified:key", "a key was modified by EncryptZero")
 	}
 
 	if discriminates {
@@ -335,6 +370,21 @@ func runQP(c QPCase, rec *h.Rec) error {
 	return nil
 }
 
-var propQP = h.NewProp("TestPropExtendedElement", h.Budget{Quick: 2400, Thorough: 30000}, genQP, runQP)
+var propQP = h.NewProp("TestPropExtendedElement", h.Budget{Quick: 1600, Thorough: 16000}, genQP, runQP)
 
 func TestPropExtendedElement(t *testing.T) { propQP.Check(t) }
+
+func hashKeysQP(sk, sk2 *rlwe.SecretKey, key rlwe.EncryptionKey) uint64 {
+	x := uint64(0xcbf29ce484222325)
+	for _, k := range []*rlwe.SecretKey{sk, sk2} {
+		x = hashPoly(x, k.Value.Q)
+		x = hashPoly(x, k.Value.P)
+	}
+	if pk, ok := key.(*rlwe.PublicKey); ok {
+		for _, v := range pk.Value {
+			x = hashPoly(x, v.Q)
+			x = hashPoly(x, v.P)
+		}
+	}
+	return x
+}
